@@ -222,3 +222,8 @@ R.contract("Message.to_answer", params={"self": "Message"}, returns="Message",
            raises=[Raise("AvpDecodeError", "False", "only_if")],
            allocates=True, props=["C20"],
            note="frame: modifies nothing, so the request (header, AVPs, attributes) is unchanged")
+
+R.contract("MessageHeader._flags", params={"self": "MessageHeader"}, returns="List[str]", props=["C04"],
+           note="raises nothing")
+R.contract("MessageHeader.__str__", params={"self": "MessageHeader"}, returns="str", props=["C04"],
+           note="rendering a header never raises")
